@@ -493,7 +493,7 @@ func (E *effectEngine) callEffects(fn *ssa.Function, in ssa.CallInstruction, add
 				if w.param >= len(c.Args) {
 					continue
 				}
-				for _, l := range E.originsOf(e.of(c.Args[w.param]), w.path, 0) {
+				for _, l := range E.originsOfArg(c.Args[w.param], w.path, in) {
 					add(l, w.instr, via, w.what)
 				}
 			case "global":
@@ -528,6 +528,47 @@ func (E *effectEngine) callEffects(fn *ssa.Function, in ssa.CallInstruction, add
 			writeArg(c.Args[i], nil, "ext:"+shortFn(callee))
 		}
 	}
+}
+
+// originsOfArg: the memory regions denoted by path `sub` below the pointer
+// argument arg of call `in`. When the pointer leads into a local (alloc) and
+// the path crosses a reference-typed component (map, slice, pointer,
+// interface) the region is what that component refers to at the call - which
+// may well be the caller's memory (a by-value struct copy shares its maps).
+func (E *effectEngine) originsOfArg(arg ssa.Value, sub []string, in ssa.Instruction) []Loc {
+	e := E.P.terms
+	root, rpath := e.pointerRoot(arg)
+	a, isAlloc := root.(*ssa.Alloc)
+	if !isAlloc {
+		return E.originsOf(e.of(arg), sub, 0)
+	}
+	full := append(append([]string{}, rpath...), sub...)
+	t := deref(a.Type())
+	for i := 0; i < len(full); i++ {
+		switch u := t.Underlying().(type) {
+		case *types.Struct:
+			found := false
+			for j := 0; j < u.NumFields(); j++ {
+				if u.Field(j).Name() == full[i] {
+					t, found = u.Field(j).Type(), true
+				}
+			}
+			if !found {
+				return []Loc{{Kind: "fresh"}}
+			}
+			continue
+		case *types.Array:
+			t = u.Elem()
+			continue
+		case *types.Map, *types.Slice, *types.Pointer, *types.Interface, *types.Chan, *types.Signature:
+			// full[:i] names a reference held in the local: follow its value
+			v := e.loadPath(a, full[:i], in)
+			return E.originsOf(v, full[i:], 0)
+		default:
+			return []Loc{{Kind: "fresh"}}
+		}
+	}
+	return []Loc{{Kind: "fresh"}}
 }
 
 // applyCallParam: the callee of call `in` calls its func-typed parameter
